@@ -23,6 +23,8 @@ CLAIMS = {
          "Lean 4 proofs (regex scan on plain versions by induction; lexicographic gates; walker composition over top-level items) + exhaustive small-scope and table correspondence + executable expected-set oracle", "§7 C09, §8.5"),
  "C08": ("Lean 4 theorems: constantVariables_exact (under unique names: reported = type locations of non-constant elementary state variables never directly written anywhere in the file, 'written' quantifying over all nodes via C01), sstore_exact, immutableVariables_sound (reported => assigned in a constructor and not written in any other contract function), immutableVariables_complete_partial together with a kernel-checked counterexample to the full completeness statement (known finding K1), memoryToCalldata_exact / _sound (never a parameter the body assigns through any index chain with any assignment operator, never a constructor parameter; every such unassigned named memory parameter is suggested). HashMap insert/remove order is modelled with association lists and shown irrelevant. Model = code observed on generated files biased to reuse state-variable and parameter names as write targets in every syntactic position; oracles recompute the expected sets independently.",
          "Lean 4 proofs over association-list models of the HashMaps, lifted by the walker theorem + differential correspondence + executable oracles; one recorded known finding", "§7 C08, §8.4, §9 K1"),
+ "C04": ("Lean 4 theorems: panic_sites_accounted (the inventory of EVERY panic-capable site of the current non-test sources — unwrap/expect, indexing, parse, panic!-family macros, casts, arithmetic — regenerated by the translator on every run, equals a reviewed classification; a new site breaks the proof), unwrap_safe + instances (walker results have the outer kind every `.expression()/.statement()/.source_unit_part().unwrap()` assumes, from C01 and the regenerated kind tables), contract_part_safe (below a contract only contract parts, on well-formed trees), string_index_safe, no_version_silent, versionOfValue_total; the walker's own unwraps are accepted by the translator only under an is_some() guard. All 30 detectors and all analyze_for_* entry points are run under catch_unwind on generated files and a hostile stream (no pragma, free functions, huge/exponent literals, odd pragma values, address(), >256 functions, depth 60), debug build in quick, debug + release in thorough; oracle: no panic.",
+         "Lean 4 proofs over a regenerated panic-site inventory + kind-table lemmas + catch_unwind differential runs in both arithmetic modes", "§7 C04"),
 }
 
 def main():
